@@ -221,6 +221,10 @@ const REACHES: &[(&str, &str, &str)] = &[
     // a page and a widget built on the same layout.  An include starts an inheritance chain of its own.
     ("included_in_block_of_host_extending_the_chains_root", "{% extends 'ROOT' %}{% block a %}{% include 't0' %}{% endblock %}", ""),
     ("included_twice_in_block_of_host_extending_the_chain", "{% extends 't0' %}{% block a %}{% include 't0' %}|{% include 't0' %}{% endblock %}", ""),
+    // the most derived template comes as a string (render_named_str) under a name that a template of
+    // the environment already has: its own parent's (a page rendered from an edited copy), or its own
+    ("from_string_under_its_parents_name", "", ""),
+    ("from_string_under_its_own_name", "", ""),
 ];
 
 /// expectation for the reaches whose host is itself part of the chain's family: the host is one more
@@ -252,6 +256,7 @@ fn reach_expect(reach: usize, out: &str) -> String {
         4 => format!("[{}]", out),
         5 => format!("{}|{}", out, out),
         6 => format!("{}{}", out, out),
+        14 | 15 => out.to_string(),
         _ => format!("<{}>", out.to_lowercase()),
     }
 }
@@ -273,6 +278,10 @@ fn render_chain(templates: &[Tmpl], reach: usize) -> Result<Result<String, Error
             let base_src = base.strip_prefix("ZZB:").unwrap_or(base);
             env.add_template(base_name, base_src).map_err(|e| e.kind())?;
         }
+        if reach == 14 || reach == 15 {
+            let name = if reach == 14 && templates.len() > 1 { templates[1].name.clone() } else { "t0".to_string() };
+            return env.render_named_str(&name, &tmpl_src(&templates[0]), context! { parent => "t1", yes => true, no => false }).map_err(|e| e.kind());
+        }
         let tm = env.get_template(if host.is_empty() { "t0" } else { "h" }).map_err(|e| e.kind())?;
         tm.render(context! { parent => "t1", yes => true, no => false }).map_err(|e| e.kind())
     })
@@ -281,7 +290,7 @@ fn render_chain(templates: &[Tmpl], reach: usize) -> Result<Result<String, Error
 fn check_chain(len: usize, code: u64, with_c: bool, form: ExtForm, reach: usize, acc: &Acc, l: &mut Local) {
     let templates = build_chain(len, code, with_c, form);
     l.evals += 1;
-    let want = resolve(&templates).and_then(|o| if reach >= 12 { reach_expect_shared(reach, &templates, &o) } else { Ok(reach_expect(reach, &o)) });
+    let want = resolve(&templates).and_then(|o| if reach == 12 || reach == 13 { reach_expect_shared(reach, &templates, &o) } else { Ok(reach_expect(reach, &o)) });
     let got = render_chain(&templates, reach);
     let mk = |clause: &str, detail: String| Failure {
         key: format!("inheritance {} chain_len={} extends={:?} reach={}", clause, len, form, REACHES[reach].0),
@@ -820,7 +829,7 @@ pub fn main(args: Args) -> i32 {
                 println!("{}: {}", t.name, tmpl_src(t));
             }
             let reach = j["reach"].as_u64().unwrap_or(0) as usize;
-            println!("reach: {:?}\nresolver: {:?}\nengine:   {:?}", REACHES[reach], resolve(&templates).and_then(|o| if reach >= 12 { reach_expect_shared(reach, &templates, &o) } else { Ok(reach_expect(reach, &o)) }), render_chain(&templates, reach));
+            println!("reach: {:?}\nresolver: {:?}\nengine:   {:?}", REACHES[reach], resolve(&templates).and_then(|o| if reach == 12 || reach == 13 { reach_expect_shared(reach, &templates, &o) } else { Ok(reach_expect(reach, &o)) }), render_chain(&templates, reach));
             check_chain(j["len"].as_u64().unwrap() as usize, j["code"].as_u64().unwrap(), j["with_c"].as_bool().unwrap(), form, reach, &acc, &mut l);
         } else if j["kind"] == "name_form" {
             name_form_family(&acc);
